@@ -142,3 +142,8 @@ RULES = [
     Rule("C16.Q1", rule_Q1, floor=3, doc="index idiom"),
     Rule("C16.Q2", rule_Q2, floor=10, doc="one source of truth"),
 ]
+
+from sa import exits as _exits  # noqa: E402
+
+RULES.append(Rule("C16.RX", _exits.make_rule("C16", "C16.RX", _exits.SCOPES["C16"]), floor=1,
+                  doc="rejection conditions: the anchored functions refuse inputs only under the conditions confirmed on the pinned tree (E16)"))
